@@ -1,6 +1,7 @@
 package main
 
 import (
+	"errors"
 	"fmt"
 	"hash/crc32"
 	"os"
@@ -8,6 +9,7 @@ import (
 	"sort"
 	"strconv"
 	"strings"
+	"syscall"
 
 	"github.com/thomasjungblut/go-sstables/recordio"
 	"github.com/thomasjungblut/go-sstables/wal"
@@ -34,7 +36,7 @@ type walOp struct {
 
 type walCase struct {
 	comp       int
-	buf        int  // 0 = default writer factory (4 MiB buffer, no compression)
+	buf        int // 0 = default writer factory (4 MiB buffer, no compression)
 	max        uint64
 	defaultMax bool // MaximumWalFileSizeBytes not given
 	boundary   bool // max chosen next to Size()+len(record) of one of the appends
@@ -319,11 +321,19 @@ func runWal(res *Result, drv *Driver, seed uint64, n int, tier string, only int)
 			continue
 		}
 		r := NewRng(seed, uint64(i))
-		c := genWalCase(r, tier)
 		dir := filepath.Join(base, fmt.Sprintf("c%d", i))
 		if err := os.Mkdir(dir, 0o755); err != nil {
 			return err
 		}
+		if i%150 == 149 {
+			// "any number of rotations": more log files than the process may hold open
+			if err := walManyFiles(res, drv, r, i, dir); err != nil {
+				return err
+			}
+			_ = os.RemoveAll(dir)
+			continue
+		}
+		c := genWalCase(r, tier)
 		if err := walOne(res, drv, r, c, i, dir, tier); err != nil {
 			return err
 		}
@@ -456,12 +466,21 @@ func walOne(res *Result, drv *Driver, r *Rng, c *walCase, idx int, base string, 
 	}
 	res.Sample(cs)
 
+	// the replayer's readers: the default factory (4 MiB read buffer per file) in a quarter of the cases,
+	// small buffers otherwise
+	rbuf := r.Pick(bufSizes[:len(bufSizes)-1])
+	rbufMain := rbuf
+	if r.Chance(25) {
+		rbufMain = 0
+		res.Stat("replay-reader:default-factory")
+	}
+	res.Stat(fmt.Sprintf("replay-reader-buffer<36:%v", rbuf < 36))
 	// ---- before Close: what is on disk now is what a kill (without power loss) would leave
 	pre, err := walRead(dir)
 	if err != nil {
 		return err
 	}
-	preRecs, preErr := walReplayReal(dir, 0)
+	preRecs, preErr := walReplayReal(dir, rbufMain)
 	res.Evaluations++
 	if preErr != nil || !isPrefixRecs(preRecs, want) || len(preRecs) < lastSynced {
 		res.Violate(idx, "C07", sigWal(c, "replay-before-close"), fmt.Sprintf("replay of the open log: want ok, a prefix of the %d appended records with at least the %d synced ones; got %s", len(want), lastSynced, replayStr(preRecs, preErr)), cs)
@@ -481,7 +500,7 @@ func walOne(res *Result, drv *Driver, r *Rng, c *walCase, idx int, base string, 
 		res.Stat("files:1")
 	}
 	res.StatN("files", len(post))
-	postRecs, postErr := walReplayReal(dir, 0)
+	postRecs, postErr := walReplayReal(dir, rbufMain)
 	res.Evaluations++
 	if postErr != nil || len(postRecs) != len(want) || !isPrefixRecs(postRecs, want) {
 		res.Violate(idx, "C07", sigWal(c, "replay-after-close"), fmt.Sprintf("replay of the closed log: want ok and the %d appended records (%s); got %s", len(want), recsPrint(want), replayStr(postRecs, postErr)), cs)
@@ -520,8 +539,6 @@ func walOne(res *Result, drv *Driver, r *Rng, c *walCase, idx int, base string, 
 
 	// ---- kills at the byte level: files 0..k with file k cut / absent
 	cutDir := filepath.Join(base, "cut")
-	rbuf := r.Pick(bufSizes[:len(bufSizes)-1]) // read buffer of the replayer's readers for the cut images
-	res.Stat(fmt.Sprintf("cut-reader-buffer<36:%v", rbuf < 36))
 	if err := os.Mkdir(cutDir, 0o755); err != nil {
 		return err
 	}
@@ -633,5 +650,99 @@ func walOne(res *Result, drv *Driver, r *Rng, c *walCase, idx int, base string, 
 		}
 		res.Cmp(idx, "wal.cuts(earlier file, correspondence only)", m, strings.Join(implAns, " "), cs+" file="+strconv.Itoa(k)+" cuts="+strings.Join(toks, ","))
 	}
+	return nil
+}
+
+// walManyFiles: a log of more files than the descriptor limit of the process (the soft RLIMIT_NOFILE is
+// lowered for the duration of the case: the property does not depend on how large the limit is).  The files
+// are compared byte for byte with the model; the replay under the lowered limit is judged by the property
+// oracle only (the model has no descriptor limit).  Regression check for the finding fixed in /repo 17d987b
+// (the replayer used to keep every file open until the end: "too many open files").
+func walManyFiles(res *Result, drv *Driver, r *Rng, idx int, dir string) error {
+	res.Cases++
+	res.Stat("many-files-case")
+	nrec := 150 + r.Intn(60)
+	c := &walCase{comp: 0, buf: 64, max: uint64(r.Intn(9))}
+	for i := 0; i < nrec; i++ {
+		kind := "a"
+		if r.Chance(30) {
+			kind = "s"
+		}
+		c.ops = append(c.ops, walOp{kind, []byte{byte(i), byte(i >> 8)}})
+	}
+	cs := c.String()
+	opts, err := c.options(dir)
+	if err != nil {
+		return err
+	}
+	w, err := wal.NewWriteAheadLog(opts)
+	if err != nil {
+		return err
+	}
+	var want [][]byte
+	for oi, o := range c.ops {
+		var e error
+		if o.kind == "a" {
+			e = safely(func() error { return w.Append(o.rec) })
+		} else {
+			e = safely(func() error { return w.AppendSync(o.rec) })
+		}
+		if e != nil {
+			res.Violate(idx, "C07", sigWal(c, "op-failed"), fmt.Sprintf("op %d: %v", oi, e), cs)
+			_ = w.Close()
+			return nil
+		}
+		want = append(want, o.rec)
+	}
+	if e := w.Close(); e != nil {
+		res.Violate(idx, "C07", sigWal(c, "close-failed"), e.Error(), cs)
+		return nil
+	}
+	post, err := walRead(dir)
+	if err != nil {
+		return err
+	}
+	res.StatN("files", len(post))
+	// replay with a descriptor limit below the number of files
+	var lim syscall.Rlimit
+	if err := syscall.Getrlimit(syscall.RLIMIT_NOFILE, &lim); err != nil {
+		return err
+	}
+	low := lim
+	low.Cur = 96
+	if err := syscall.Setrlimit(syscall.RLIMIT_NOFILE, &low); err != nil {
+		return err
+	}
+	recs, rerr := walReplayReal(dir, 512)
+	if err := syscall.Setrlimit(syscall.RLIMIT_NOFILE, &lim); err != nil {
+		return err
+	}
+	res.Evaluations++
+	if rerr != nil || len(recs) != len(want) || !isPrefixRecs(recs, want) {
+		sig := "many-files:replay-failed"
+		if errors.Is(rerr, syscall.EMFILE) {
+			sig = "many-files:replay-holds-one-descriptor-per-file"
+		}
+		res.Violate(idx, "C07", sig, fmt.Sprintf("log of %d files, descriptor limit %d: replay of the closed log must deliver the %d appended records; got %d records, err = %v", len(post), low.Cur, len(want), len(recs), rerr), cs)
+	}
+	// with the normal limit the same directory replays completely (so the failure above is the limit, nothing else)
+	recs2, rerr2 := walReplayReal(dir, 512)
+	res.Evaluations++
+	if rerr2 != nil || len(recs2) != len(want) || !isPrefixRecs(recs2, want) {
+		res.Violate(idx, "C07", sigWal(c, "replay-after-close"), fmt.Sprintf("log of %d files: want the %d appended records; got %s", len(post), len(want), replayStr(recs2, rerr2)), cs)
+	}
+	m, err := drv.Ask(fmt.Sprintf("wal.run max=%d buf=%d comp=%d oracle= ops=%s", c.max, c.buf, c.comp, c.opsString()))
+	if err != nil {
+		return err
+	}
+	// compare the files and the (unlimited) replay with the model
+	wantTok := "post=" + walDirStr(post)
+	got := ""
+	for _, t := range strings.Split(m, " ") {
+		if strings.HasPrefix(t, "post=") || strings.HasPrefix(t, "rpost=") {
+			got += t + " "
+		}
+	}
+	res.Cmp(idx, "wal.run(many files)", strings.TrimSpace(got), wantTok+" rpost="+replayStr(recs2, rerr2), cs)
 	return nil
 }
